@@ -506,7 +506,7 @@ impl State {
     pub fn decode_line_at(&self, lead: usize, bytes: &[u8]) -> String {
         let mut buf: Vec<u8> = (0..lead).map(|i| 0xa5u8.wrapping_add(i as u8)).collect();
         buf.extend_from_slice(bytes);
-        let mut cur = Cursor::new(&buf[..]);
+        let mut cur = rd(&buf[..]);
         cur.set_position(lead as u64);
         match DiameterMessage::decode_from(&mut cur, self.dict.clone()) {
             Ok(m) => {
@@ -895,7 +895,7 @@ impl State {
                 }
             }
             ["decode", h] => match unhex(h) {
-                Some(b) => match DiameterMessage::decode_from(&mut Cursor::new(&b), self.dict.clone()) {
+                Some(b) => match DiameterMessage::decode_from(&mut rd(&b), self.dict.clone()) {
                     Ok(m) => {
                         self.msg = m;
                         "ok".into()
@@ -928,7 +928,7 @@ impl State {
                 if self.msg.encode_to(&mut v).is_err() {
                     return "err".into();
                 }
-                match DiameterMessage::decode_from(&mut Cursor::new(&v), self.dict.clone()) {
+                match DiameterMessage::decode_from(&mut rd(&v), self.dict.clone()) {
                     Ok(m) => {
                         self.msg = m;
                         "ok".into()
@@ -968,7 +968,7 @@ impl State {
                 if self.msg.encode_to(&mut v).is_err() {
                     return "encerr".into();
                 }
-                match DiameterMessage::decode_from(&mut Cursor::new(&v), self.dict.clone()) {
+                match DiameterMessage::decode_from(&mut rd(&v), self.dict.clone()) {
                     Ok(m) => dump_msg(&m),
                     Err(_) => "err".into(),
                 }
@@ -1013,6 +1013,15 @@ impl State {
                     _ => return "bad-op".into(),
                 };
                 let dict = self.dict.clone();
+                // the octets the script delivers (up to its first end or failure)
+                let mut flat: Vec<u8> = vec![];
+                for e in &evs {
+                    match e {
+                        crate::sio::REv::Data(b) => flat.extend_from_slice(b),
+                        crate::sio::REv::Eof | crate::sio::REv::Fail | crate::sio::REv::Silent => break,
+                        _ => {}
+                    }
+                }
                 self.rt.block_on(async move {
                     let mut stream = crate::sio::Scripted::new(evs, vec![]);
                     let mut out: Vec<String> = vec![];
@@ -1028,7 +1037,12 @@ impl State {
                             Ok(Ok(m)) => out.push(format!("ok:{}@{}", dump_msg(&m), used)),
                             Ok(Err(_)) => {
                                 out.push(format!("err@{}", used));
-                                break;
+                                // a refusal that took exactly one announced frame (of admissible size) leaves the stream
+                                // at the next frame: reading goes on. Any other failure ends the sequence.
+                                let announced = if before + 4 <= flat.len() { ((flat[before + 1] as usize) << 16) | ((flat[before + 2] as usize) << 8) | flat[before + 3] as usize } else { 0 };
+                                if !(used == announced && (20..=1048576).contains(&announced)) {
+                                    break;
+                                }
                             }
                         }
                     }
@@ -1104,6 +1118,30 @@ impl State {
                     format!("calls=[{}] written={} end={}", calls.borrow().join(";"), hexd(&sh.written), end)
                 })
             }
+            ["repeat", n, rest @ ..] => {
+                // a probe run n times on this thread: every run must give the same answer
+                let n: usize = match n.parse() {
+                    Ok(n) => n,
+                    Err(_) => return "bad-op".into(),
+                };
+                let l = rest.join(" ");
+                let first = self.step(&l);
+                for k in 1..n {
+                    let again = self.step(&l);
+                    // (the time-budget suffix of `decq` may come and go with the load of the machine)
+                    if again.trim_end_matches(" slow") != first.trim_end_matches(" slow") {
+                        return format!("{} !run-{}-differs:{}", first, k, again.chars().take(200).collect::<String>());
+                    }
+                }
+                first
+            }
+            ["rmode", n] => match n.parse::<u32>() {
+                Ok(n) => {
+                    RMODE.with(|m| m.set(n));
+                    ".".into()
+                }
+                Err(_) => "bad-op".into(),
+            },
             ["cliswitch", end] => {
                 // one client object, two connections one after the other: a request is outstanding on the first when the
                 // application attaches the second; then the first connection ends (`e` close, `f` reset, `g` garbage) while
@@ -1274,7 +1312,7 @@ impl State {
             }
             ["deca", h] => match unhex(h) {
                 Some(b) => {
-                    let mut c = Cursor::new(&b);
+                    let mut c = rd(&b);
                     match Avp::decode_from(&mut c, self.dict.clone()) {
                         Ok(a) => {
                             let mut s = String::from("ok ");
@@ -1289,7 +1327,7 @@ impl State {
             },
             ["decg", len, h] => match (len.parse::<usize>().ok(), unhex(h)) {
                 (Some(len), Some(b)) => {
-                    let mut c = Cursor::new(&b);
+                    let mut c = rd(&b);
                     match Grouped::decode_from(&mut c, len, self.dict.clone()) {
                         Ok(g) => {
                             let mut s = String::from("ok [");
@@ -1330,12 +1368,65 @@ impl State {
     }
 }
 
+
+/* ---------- readers that hand out the octets in pieces (`rmode <n>`) ----------
+The codec is generic over `Read + Seek`; a `Cursor` returns everything asked for in one call, a file, a `BufReader`, a
+`Chain` or a socket need not. Mode 0 is the plain cursor; the other modes cap what one `read` call returns. Whatever the
+mode, the octets and the positions are the same, so every answer must be the same. */
+thread_local! { pub static RMODE: std::cell::Cell<u32> = std::cell::Cell::new(0); }
+
+pub struct Frag<'a> {
+    c: Cursor<&'a [u8]>,
+    calls: usize,
+    mode: u32,
+}
+
+pub fn rd(b: &[u8]) -> Frag<'_> {
+    Frag { c: Cursor::new(b), calls: 0, mode: RMODE.with(|m| m.get()) }
+}
+
+impl<'a> Frag<'a> {
+    pub fn position(&self) -> u64 {
+        self.c.position()
+    }
+    pub fn set_position(&mut self, p: u64) {
+        self.c.set_position(p)
+    }
+}
+
+impl<'a> std::io::Read for Frag<'a> {
+    fn read(&mut self, buf: &mut [u8]) -> std::io::Result<usize> {
+        let pos = self.c.position() as usize;
+        let cap = match self.mode {
+            0 => buf.len(),
+            1 => 1,
+            2 => 2,
+            3 => 3,
+            4 => [1usize, 2, 3, 5, 7][self.calls % 5],
+            5 => [7usize, 1][self.calls % 2],
+            // like a buffered reader: a call never crosses an absolute multiple of 5 / of 7
+            6 => 5 - pos % 5,
+            7 => 7 - pos % 7,
+            _ => buf.len(),
+        };
+        self.calls += 1;
+        let n = cap.min(buf.len());
+        self.c.read(&mut buf[..n])
+    }
+}
+
+impl<'a> std::io::Seek for Frag<'a> {
+    fn seek(&mut self, p: std::io::SeekFrom) -> std::io::Result<u64> {
+        self.c.seek(p)
+    }
+}
+
 /* ---------- C17: fixed-size types, one value at a time and folded over ranges ---------- */
 
 /// decode the octets with the type's own `decode_from`, observe through the public accessor, encode back
 /// returns (observable text, observable as a number, re-encoded octets or None on error)
 fn fx_one(t: &str, b: &[u8]) -> Option<(String, u64, Option<Vec<u8>>)> {
-    let mut c = Cursor::new(b);
+    let mut c = rd(b);
     let mut e = Vec::new();
     Some(match t {
         "u32" => {
@@ -1464,7 +1555,7 @@ impl std::io::Write for FaultWriter {
         let room = self.budget - self.acc.len();
         if room == 0 {
             self.failed = true;
-            return if self.zero { Ok(0) } else { Err(std::io::Error::new(std::io::ErrorKind::BrokenPipe, "writer failed")) };
+            return if self.zero { Ok(0) } else { Err(std::io::Error::new(crate::sio::fault_kind(self.budget), "writer failed")) };
         }
         let mut n = b.len().min(room);
         if self.short > 0 {
